@@ -126,6 +126,22 @@ def run(ctx):
             A, _ = gen.gen_fileset(rng, allow_obj_struct=False)
             if not all_ifaces(A):
                 continue
+            if len(pairs) % 6 == 5:
+                # a large interface with interleaved member kinds (sorting or grouping members is
+                # only visible beyond small sizes)
+                cands = [(f, di) for f in A["files"] for di, d in enumerate(f["decls"]) if d[0] == "iface"]
+                f, di = rng.choice(cands)
+                kind, name, base, members = f["decls"][di]
+                extra = []
+                for j in range(rng.randint(30, 45)):
+                    r = rng.random()
+                    if r < 0.6:
+                        extra.append(("method", "big_m%d_%d" % (len(pairs), j), [("in", "uint32", None, "x")] if j % 2 else [], False, None))
+                    elif r < 0.85:
+                        extra.append(("error", "BIG_E%d_%d" % (len(pairs), j)))
+                    else:
+                        extra.append(("const", "uint32", "BIG_K%d_%d" % (len(pairs), j), str(j)))
+                f["decls"][di] = (kind, name, base, list(members) + extra)
             B, X, new = make_revision(rng, A)
             pairs.append((A, B, X, new))
     res = {"coverage": {}, "failures": [], "corr_broken": []}
